@@ -1,8 +1,10 @@
 package main
 
 import (
+	"bytes"
 	"encoding/json"
 	"fmt"
+	"math/rand/v2"
 	"reflect"
 	"runtime"
 	"sort"
@@ -521,3 +523,351 @@ func replayArshal(args map[string]string) error {
 }
 
 func init() { commands["replay-arshal"] = replayArshal }
+
+// ------------------------------------------------------------------ trace validation against Arshal.tla
+
+// modelOfDesc maps a generated type description into the model's type language (nil when the
+// description uses something the model does not cover)
+func modelOfDesc(t *tdesc) *mtype {
+	intT := func(bits int, signed bool) *mtype { return &mtype{K: "int", Bits: bits, Signed: signed} }
+	switch t.K {
+	case "bool":
+		return &mtype{K: "bool"}
+	case "string":
+		return &mtype{K: "str"}
+	case "float64":
+		return &mtype{K: "float"}
+	case "int8":
+		return intT(8, true)
+	case "int16":
+		return intT(16, true)
+	case "int32":
+		return intT(32, true)
+	case "int64", "int":
+		return intT(64, true)
+	case "uint8":
+		return intT(8, false)
+	case "uint16":
+		return intT(16, false)
+	case "uint32":
+		return intT(32, false)
+	case "uint64", "uint":
+		return intT(64, false)
+	case "any":
+		return &mtype{K: "any"}
+	case "slice", "array", "ptr":
+		e := modelOfDesc(t.Elem)
+		if e == nil || (t.K != "ptr" && t.Elem.K == "uint8") { // []byte and [N]byte are binary data, not lists
+			return nil
+		}
+		return &mtype{K: t.K, E: e, N: t.N}
+	case "map":
+		k, e := modelOfDesc(t.Key), modelOfDesc(t.Elem)
+		if k == nil || e == nil || (k.K != "str" && k.K != "int") {
+			return nil
+		}
+		return &mtype{K: "map", Key: k, E: e}
+	case "struct":
+		m := &mtype{K: "struct", F: []mfield{}}
+		for _, f := range t.Fields {
+			if f.Embedded {
+				return nil
+			}
+			ft := modelOfDesc(f.T)
+			if ft == nil {
+				return nil
+			}
+			if strings.ContainsAny(jsonNameOf(f), "\"\\'`") { // would need quoting inside the tag; the generator does not quote
+				return nil
+			}
+			mf := mfield{T: ft, Name: []int{}}
+			for _, r := range jsonNameOf(f) {
+				mf.Name = append(mf.Name, int(r))
+			}
+			if f.Tag != "" {
+				tag, _ := strconv.Unquote(strings.TrimPrefix(f.Tag, "json:"))
+				for _, o := range strings.Split(tag, ",")[1:] {
+					switch o {
+					case "omitzero":
+						mf.OmitZero = true
+					case "omitempty":
+						mf.OmitEmpty = true
+					case "string":
+						mf.Str = true
+					default:
+						return nil
+					}
+				}
+			}
+			m.F = append(m.F, mf)
+		}
+		return m
+	}
+	return nil
+}
+
+// the model type as JSON-able data (every field of the TLA+ records present)
+func (t *mtype) data() map[string]any {
+	switch t.K {
+	case "int":
+		return map[string]any{"k": "int", "bits": t.Bits, "signed": t.Signed}
+	case "slice", "ptr":
+		return map[string]any{"k": t.K, "e": t.E.data()}
+	case "array":
+		return map[string]any{"k": "array", "n": t.N, "e": t.E.data()}
+	case "map":
+		return map[string]any{"k": "map", "key": t.Key.data(), "e": t.E.data()}
+	case "struct":
+		fs := []any{}
+		for _, f := range t.F {
+			fs = append(fs, map[string]any{"name": f.Name, "t": f.T.data(), "omitzero": f.OmitZero, "omitempty": f.OmitEmpty, "str": f.Str, "casing": f.Casing})
+		}
+		return map[string]any{"k": "struct", "f": fs}
+	}
+	return map[string]any{"k": t.K}
+}
+
+func hasOther(x any) bool {
+	switch v := x.(type) {
+	case map[string]any:
+		if k, ok := v["k"].(string); ok && strings.HasPrefix(k, "other:") {
+			return true
+		}
+		for _, e := range v {
+			if hasOther(e) {
+				return true
+			}
+		}
+	case []any:
+		for _, e := range v {
+			if hasOther(e) {
+				return true
+			}
+		}
+	}
+	return false
+}
+
+type modelCase struct {
+	ID    int            `json:"id"`
+	Prop  string         `json:"prop"`
+	Kind  string         `json:"kind"` // m | u | skip
+	Seed  []uint64       `json:"seed"`
+	T     map[string]any `json:"t"`
+	V     any            `json:"v"`   // m: the value; u: the resulting value (0 when the call failed)
+	Old   any            `json:"old"` // u: the pre-existing value
+	O     mopts          `json:"o"`
+	Text  []int          `json:"text"`
+	OK    bool           `json:"ok"`
+	Out   []int          `json:"out"`
+	Panic string         `json:"panic"`
+	Note  string         `json:"note"` // error text, for the reader of a rejected record
+}
+
+var tvMOpts = []mopts{{Det: true}, {Det: true, Nsn: true, Nmn: true}, {Det: true, Oz: true}, {Det: true, Sn: true}, {Det: true, Sn: true, Oz: true, Nsn: true}}
+var tvUOpts = []mopts{{}, {Sn: true}, {Ru: true}, {Ci: true}, {Ad: true}, {Ad: true, Ci: true, Sn: true}}
+
+func modelExec(c *modelCase) {
+	defer func() {
+		if r := recover(); r != nil {
+			c.Panic = fmt.Sprint(r)
+		}
+		if c.Text == nil {
+			c.Text = []int{}
+		}
+		if c.Out == nil {
+			c.Out = []int{}
+		}
+		if c.V == nil {
+			c.V = 0
+		}
+		if c.Old == nil {
+			c.Old = 0
+		}
+		if c.T == nil {
+			c.T = map[string]any{"k": "none"}
+		}
+	}()
+	r := newRngPCG(c.Seed[0], c.Seed[1])
+	cfg := &typeCfg{maxDepth: 1 + r.IntN(4), maxFields: 1 + r.IntN(6), tags: true, anys: true, floats: true, plainNames: r.IntN(3) != 0,
+		mapKeys: []string{"string", "string", "int", "int8", "uint64", "uint16"}}
+	td := genTypeDesc(r, cfg, 0)
+	mt := modelOfDesc(td)
+	kind := c.Kind
+	c.Kind = "skip"
+	if mt == nil {
+		return
+	}
+	rt := buildType(td)
+	mt.rt = rt
+	c.T = mt.data()
+	// the generator's more exotic names can make a struct tag the library refuses: outside the domain
+	if _, err := jsonv2.Marshal(reflect.Zero(rt).Interface()); err != nil && strings.Contains(err.Error(), "malformed `json` tag") {
+		return
+	}
+	if kind == "m" {
+		v := genGoValue(r, &valCfg{nils: true}, rt, 0)
+		c.O = tvMOpts[r.IntN(len(tvMOpts))]
+		mv := mt.render(v)
+		if hasOther(mv) {
+			return
+		}
+		p := reflect.New(rt)
+		p.Elem().Set(v)
+		out, err := jsonv2.Marshal(p.Interface(), c.O.options()...)
+		c.Kind, c.V, c.OK, c.Out = "m", mv, err == nil, ints(out)
+		if err != nil {
+			c.Out, c.Note = []int{}, truncate(err.Error(), 200)
+		}
+		return
+	}
+	old := genGoValue(r, &valCfg{nils: true}, rt, 0)
+	if r.IntN(3) == 0 {
+		old = reflect.New(rt).Elem()
+	}
+	ov := mt.render(old)
+	if hasOther(ov) {
+		return
+	}
+	var sb strings.Builder
+	genJSONFor(r, td, &sb, 0)
+	text := []byte(sb.String())
+	switch r.IntN(6) {
+	case 0:
+		text = mutate(r, text)
+	case 1: // the text of another value of another type: mostly kind mismatches
+		sb.Reset()
+		genJSONFor(r, genTypeDesc(r, cfg, 0), &sb, 0)
+		text = []byte(sb.String())
+	}
+	if !numbersInsideModel(text, mtHas(mt, "float", "any")) {
+		return
+	}
+	c.O = tvUOpts[r.IntN(len(tvUOpts))]
+	p := reflect.New(rt)
+	p.Elem().Set(old)
+	err := jsonv2.Unmarshal(text, p.Interface(), c.O.options()...)
+	c.Kind, c.Old, c.Text, c.OK = "u", ov, ints(text), err == nil
+	if err != nil {
+		c.Note = truncate(err.Error(), 200)
+	}
+	if err == nil {
+		c.V = mt.render(p.Elem())
+		if hasOther(c.V) {
+			c.Kind = "skip"
+		}
+	}
+}
+
+func newRngPCG(a, b uint64) *rand.Rand { return rand.New(rand.NewPCG(a, b)) }
+
+// drive-arshalmodel seed=N n=N prop=Cxx out=<ndjson> [redo=<records>]
+func driveArshalModel(args map[string]string) error {
+	out, err := newSink(args["out"])
+	if err != nil {
+		return err
+	}
+	defer out.close()
+	if redo := args["redo"]; redo != "" {
+		err := tlcLines(redo, func(line []byte) {
+			var c modelCase
+			if err := json.Unmarshal(line, &c); err != nil {
+				panic(err)
+			}
+			c2 := modelCase{ID: c.ID, Prop: c.Prop, Kind: c.Kind, Seed: c.Seed}
+			modelExec(&c2)
+			out.put(c2)
+		})
+		summary(map[string]any{"cases": out.n})
+		return err
+	}
+	seed, n, prop := uint64(argInt(args, "seed", 1)), argInt(args, "n", 1000), argStr(args, "prop", "C04")
+	kinds := strings.Split(argStr(args, "kinds", "m,u"), ",")
+	var wg sync.WaitGroup
+	var skipped atomic.Int64
+	workers := runtime.NumCPU()
+	for w := 0; w < workers; w++ {
+		wg.Add(1)
+		go func(w int) {
+			defer wg.Done()
+			r := newRng(seed, uint64(4100+w))
+			for i := w; i < n; i += workers {
+				c := modelCase{ID: i + 1, Prop: prop, Kind: kinds[r.IntN(len(kinds))], Seed: []uint64{r.Uint64(), r.Uint64()}}
+				modelExec(&c)
+				if c.Kind == "skip" {
+					skipped.Add(1)
+				}
+				out.put(c)
+			}
+		}(w)
+	}
+	wg.Wait()
+	summary(map[string]any{"cases": n, "outside_model": skipped.Load()})
+	return nil
+}
+
+func init() { commands["drive-arshalmodel"] = driveArshalModel }
+
+func mtHas(t *mtype, kinds ...string) bool {
+	if t == nil {
+		return false
+	}
+	for _, k := range kinds {
+		if t.K == k {
+			return true
+		}
+	}
+	if mtHas(t.E, kinds...) || mtHas(t.Key, kinds...) {
+		return true
+	}
+	for _, f := range t.F {
+		if mtHas(f.T, kinds...) {
+			return true
+		}
+	}
+	return false
+}
+
+// numbersInsideModel: the model converts a literal to float64 by itself only when it has at
+// most 15 significant digits and lies well inside the range, or far outside it (overflow,
+// underflow to zero).  Everything else belongs to C10's check.  Texts that are not valid JSON
+// are kept: the model does not look at their numbers.
+func numbersInsideModel(text []byte, floats bool) bool {
+	d := jsontext.NewDecoder(bytes.NewReader(text), jsontext.AllowDuplicateNames(true), jsontext.AllowInvalidUTF8(true))
+	for {
+		tok, err := d.ReadToken()
+		if err != nil {
+			return true
+		}
+		if tok.Kind() != '0' {
+			continue
+		}
+		lit := strings.TrimPrefix(tok.String(), "-")
+		mant, exp, isExp := strings.Cut(strings.ToLower(lit), "e")
+		isFloat := isExp || strings.Contains(mant, ".")
+		if !isFloat && !floats {
+			continue // integers go to integer types: any length is decided by the model
+		}
+		intPart, frac, _ := strings.Cut(mant, ".")
+		digits := strings.TrimLeft(intPart+frac, "0")
+		lead := len(intPart+frac) - len(digits) // leading zeros dropped
+		sig := strings.TrimRight(digits, "0")
+		if sig == "" {
+			continue // zero
+		}
+		e, _ := strconv.Atoi(exp)
+		if len(exp) > 6 {
+			e = 1000000
+			if strings.HasPrefix(exp, "-") {
+				e = -1000000
+			}
+		}
+		n := len(intPart) - lead + e // value = 0.sig * 10^n
+		switch {
+		case n >= 310 || n <= -330:
+		case len(sig) <= 15 && n > -290 && n < 290:
+		default:
+			return false
+		}
+	}
+}
